@@ -122,11 +122,11 @@ func c19Run(line string) string {
 	if len(f) > 0 && f[0] == "just" {
 		return c19RunJ(line)
 	}
-	if len(f) == 0 || f[0] != "vc" {
+	if len(f) == 0 || (f[0] != "vc" && f[0] != "vcl") {
 		return "bad-op"
 	}
 	kv := c19KV(hdr)
-	return vhWithTimeout(5000, func() string {
+	out := vhWithTimeout(5000, func() string {
 		switch kv["w"] {
 		case "32":
 			return c19RunVC[uint32](kv, body)
@@ -135,9 +135,18 @@ func c19Run(line string) string {
 		}
 		return "bad-op"
 	})
+	// `vcl`: precommits whose numbers do not agree with the tree (a voter signed a bogus number).
+	// The model does not predict the verdict there; the observable is only that the call returns.
+	if f[0] == "vcl" && out != "panic" && out != "timeout" && out != "bad-op" {
+		return "returns"
+	}
+	return out
 }
 
 func c19Gen(r *vhRng) string {
+	if r.Chance(1, 20) {
+		return c19GenVCL(r)
+	}
 	if r.Chance(3, 5) {
 		return c19GenVC(r)
 	}
